@@ -142,6 +142,9 @@ def R(n):
         return 'new ' + ' '.join(R(c) for c in n.get('inner', []))
     if k == 'CXXDefaultInitExpr':
         return 'default-init'
+    if k == 'CXXDependentScopeMemberExpr':
+        b = R(n['inner'][0]) if n.get('inner') else 'this'
+        return n.get('member', '?') if b == 'this' else '%s.%s' % (b, n.get('member', '?'))
     if k == 'CXXThrowExpr':
         return 'throw ' + (R(n['inner'][0]) if n.get('inner') else '')
     raise TranslateError('render: unsupported expression node %s' % k)
@@ -853,6 +856,52 @@ def gen_addvariables(tree):
             'def addVariables (nvars nlvc nlvo nlvb nbv niv nlvbi nlvci nlvoi : Int) : Option (List (Int × Bool)) :=\n  %s\n' % term)
 
 
+def gen_readnumargs(tree):
+    """include/mp/nl-reader.h, NLReader::ReadNumArgs (the arity test applied to the `sum` node) and MIN_ITER_ARGS.
+    The member is only available as the class-template pattern; its test `num_args < min_args` is not dependent."""
+    import subprocess
+    tu = os.path.join(tree.work, 'c08_readnumargs_inst.cc')
+    open(tu, 'w').write(AV_TU)
+    def dump(flt):
+        cmd = ['clang++-14', '-std=gnu++17', '-fsyntax-only', '-w', '-DNDEBUG', '-I', os.path.join(tree.repo, 'include'),
+               '-Xclang', '-ast-dump=json', '-Xclang', '-ast-dump-filter=' + flt, tu]
+        p = subprocess.run(cmd, capture_output=True, text=True)
+        if p.returncode != 0:
+            raise TranslateError('clang failed: ' + p.stderr[:1500])
+        docs = parse_concat_json(p.stdout)
+        for d in docs:
+            prune(d)
+        return docs
+    fns = [d for d in dump('ReadNumArgs') if d.get('kind') == 'CXXMethodDecl' and d.get('name') == 'ReadNumArgs']
+    if len(fns) != 1:
+        raise TranslateError('%d declarations of ReadNumArgs' % len(fns))
+    fn = fns[0]
+    params = [c for c in fn['inner'] if c.get('kind') == 'ParmVarDecl']
+    body = [c for c in fn['inner'] if c.get('kind') == 'CompoundStmt'][0]
+    if len(params) != 1 or params[0].get('name') != 'min_args':
+        raise TranslateError('ReadNumArgs: parameters changed')
+    dflt = [c for c in params[0].get('inner', []) if isinstance(c, dict) and 'kind' in c]
+    if not dflt or R(dflt[-1]) != 'MIN_ITER_ARGS':
+        raise TranslateError('ReadNumArgs: default of min_args is not MIN_ITER_ARGS')
+    rend = S(body)
+    if len(rend) != 3 or rend[0] != 'decl num_args := reader_.ReadUInt()' or rend[2] != 'return num_args':
+        raise TranslateError('ReadNumArgs: body changed: %s' % rend)
+    ifs = [c for c in body['inner'] if c.get('kind') == 'IfStmt'][0]
+    if len(ifs['inner']) != 2 or not R(ifs['inner'][1]).startswith('reader_.ReportError('):
+        raise TranslateError('ReadNumArgs: the guarded statement is not reader_.ReportError(...)')
+    cond = Sem({'num_args': ('numArgs', 'Int'), 'min_args': ('minArgs', 'Int')}).E(ifs['inner'][0], 'Bool')[0]
+    consts = [d for d in dump('MIN_ITER_ARGS') if d.get('kind') == 'EnumConstantDecl' and d.get('name') == 'MIN_ITER_ARGS']
+    if len(consts) != 1:
+        raise TranslateError('MIN_ITER_ARGS not found')
+    lit = strip([c for c in consts[0].get('inner', []) if isinstance(c, dict) and 'kind' in c][-1])
+    if lit.get('kind') != 'IntegerLiteral':
+        raise TranslateError('MIN_ITER_ARGS is not an integer literal')
+    return ('/-- `NLReader::ReadNumArgs`: the condition under which "too few arguments" is reported; `MIN_ITER_ARGS` is the default\n'
+            'minimum, used for the `sum` node -/\n'
+            'def readNumArgsFails (numArgs minArgs : Int) : Bool := %s\n'
+            'def minIterArgs : Int := %s\n' % (cond, lit['value']))
+
+
 SKELS = [  # (lean name, source file, dump filter, function name, signature substring or None)
     ('FeedObjGradient', 'nl-writer2/src/nl-solver.cc', 'NLFeeder_Easy', 'FeedObjGradient', None),
     ('FeedObjExpression', 'nl-writer2/src/nl-solver.cc', 'NLFeeder_Easy', 'FeedObjExpression', None),
@@ -899,7 +948,7 @@ def main(repo, out, work):
          'namespace MpVerif.Gen.C08Easy',
          'open MpVerif.C08',
          '',
-         gen_permute_step(tree), gen_objvalue(tree), gen_solhandler(tree), gen_walks(tree), gen_revmap(tree), gen_namefile(tree), gen_addvariables(tree)]
+         gen_permute_step(tree), gen_objvalue(tree), gen_solhandler(tree), gen_walks(tree), gen_revmap(tree), gen_namefile(tree), gen_addvariables(tree), gen_readnumargs(tree)]
     names = []
     for lean, src, flt, fn, sig in SKELS:
         _, _, rend = tree.body(src, flt, fn, None, sig)
@@ -912,7 +961,7 @@ def main(repo, out, work):
     old = open(out).read() if os.path.exists(out) else None
     if old != text:
         open(out, 'w').write(text)
-    print('generated 38 semantic defs, %d skeletons -> %s%s' % (len(names), out, '' if old != text else ' (unchanged)'))
+    print('generated 40 semantic defs, %d skeletons -> %s%s' % (len(names), out, '' if old != text else ' (unchanged)'))
 
 
 if __name__ == '__main__':
